@@ -160,9 +160,16 @@ def compile_layout(arg: dict) -> dict:
     saved = sc.MacroResolutionOrderVisitor
     out: dict
     try:
+        files = dict(arg.get("files") or {})
+        if arg.get("asts"):
+            # surface ASTs are printed here, in the worker (the printer is harness code; this only moves the work off the
+            # single-threaded parent)
+            from .gen import surface
+            for rel, ast in arg["asts"].items():
+                files[rel] = surface.print_program(ast)[0]
         for d in arg.get("dirs", []):
             os.makedirs(os.path.join(root, d), exist_ok=True)
-        for rel, text in arg["files"].items():
+        for rel, text in files.items():
             p = os.path.join(root, rel)
             os.makedirs(os.path.dirname(p), exist_ok=True)
             with open(p, "w", encoding="utf-8") as fh:
@@ -179,13 +186,21 @@ def compile_layout(arg: dict) -> dict:
             with open(main, encoding="utf-8") as fh:
                 c.compile(fh.read(), main)
             out = rsjson.rs_to_json(c.routine_infos, c.routine_ops, c.named_coroutines)
-            out["source_map"] = sm_json(c.source_map)
+            # source-map macro entries, reduced to (relative file, macro name, count)
+            pairs: dict = {}
+            if c.source_map is not None:
+                for _off, m in c.source_map.collect_mappings__macros():
+                    key = (m.relpath_included_file, m.macro_name)
+                    pairs[key] = pairs.get(key, 0) + 1
+            out["sm_macros"] = [[k[0], k[1], v] for k, v in pairs.items()]
+            if arg.get("full_source_map"):
+                out["source_map"] = sm_json(c.source_map)
         except BaseException as e:  # noqa
             out = _exc(e)
         out["macro_order"] = list(c.macro_resolution_order)
         out["macros"] = {k: list(v) for k, v in macro_paths(c).items()}
         out["log"] = log
-        out["tree"] = tree
+        out["tree"] = tree if len(files) > 1 or arg.get("dirs") else [root, os.path.dirname(main), main]
         out["cwd"] = os.getcwd()
         out = unroot(out)
     finally:
